@@ -2088,7 +2088,12 @@ func (w *Walker) rawPath(e ast.Expr, st *pstate, c *ctl) string {
 	case *ast.IndexExpr:
 		if tv, ok := c.info.Types[x.X]; ok && !tv.IsType() {
 			if _, isFn := tv.Type.Underlying().(*types.Signature); !isFn {
-				return w.rawPath(x.X, st, c) + "[" + w.canon(x.Index, st, c) + "]"
+				base, idx := w.rawPath(x.X, st, c), w.canon(x.Index, st, c)
+				// `for i := range xs { x := xs[i] … }` names the element the value form `for _, x := range xs` names
+				if strings.HasPrefix(idx, "key(") && strings.HasSuffix(idx, ")") && stripVersion(idx[4:len(idx)-1]) == stripVersion(base) {
+					return "elem(" + idx[4:len(idx)-1] + ")"
+				}
+				return base + "[" + idx + "]"
 			}
 		}
 	case *ast.StarExpr:
